@@ -424,6 +424,9 @@ def _run_notify(case):
       n = counter[0]; test.measurements.a = 2; after('measurement', n)
       n = counter[0]; test.measurements.d[0] = 5; after('dimensioned', n)
       n = counter[0]; test.measurements.d[1] = 6; after('dimensioned', n)
+      # overriding an existing coordinate / an existing value is a change of the measurement value as well
+      n = counter[0]; test.measurements.d[0] = 7; after('dimensioned', n)
+      n = counter[0]; test.measurements.d[0] = 7; after('dimensioned', n)
       if logon:
         n = counter[0]; test.logger.info('hello %d', 1); after('log', n)
       n = counter[0]; test.dut_id = 'dut7'; after('dut-id', n)
